@@ -40,8 +40,10 @@ const (
 	oReceiverDep                       // C06: decoding into a receiver that holds another value yields a different value
 	oRepeatDiffers                     // C08: the same payload decoded twice in a row into one receiver: the verdicts differ
 	oOtherInstance                     // C06: the decoded value changes when another datapoint of the type decodes another payload
+	oInputModified                     // C06: the decoder changed the payload it was given
+	oPayloadShared                     // C06: an encoded payload changes when another value is encoded afterwards
 
-	c06Bits = oPanicPack | oPanicReUnpack | oReRejected | oDrift | oNotIdentical | oAliasPayload | oReceiverDep | oOtherInstance
+	c06Bits = oPanicPack | oPanicReUnpack | oReRejected | oDrift | oNotIdentical | oAliasPayload | oReceiverDep | oOtherInstance | oInputModified | oPayloadShared
 	c08Bits = oPanicUnpack | oWrongLen | oOutOfRange | oPanicString | oPanicUnit | oRepeatDiffers
 )
 
@@ -75,6 +77,8 @@ type codec struct {
 	canonBuf [32]byte
 	refKind  bool   // the Go type holds strings, slices, pointers or maps: a decoded value could share memory with the payload
 	scratch  []byte // a private copy of the payload for the overwrite-after-decode probe
+	pcopy    []byte
+	p2copy   []byte
 	p3       []byte
 	d3       dpt.Datapoint // a receiver that is primed with another value before every probe
 	primer   []byte        // an accepted payload with as many non-zero fields as could be found
@@ -234,6 +238,7 @@ func (c *codec) eval(p []byte, fl flags) (o outcome) {
 		c.rv.SetZero()
 		c.rv2.SetZero()
 	}
+	c.pcopy = append(c.pcopy[:0], p...)
 	if err := c.d.Unpack(p); err != nil {
 		c.err = err
 		if fl&fC08 != 0 {
@@ -246,6 +251,12 @@ func (c *codec) eval(p []byte, fl flags) (o outcome) {
 		return oRejected
 	}
 	o = oAccepted
+	if fl&fC06 != 0 && !bytes.Equal(p, c.pcopy) {
+		// the payload belongs to the caller (a second listener decodes the same telegram, a relay
+		// forwards it): a decoder that writes into it changes what they see
+		o |= oInputModified
+		copy(p, c.pcopy)
+	}
 	if fl&fC08 != 0 {
 		if s := c.spec; s != nil {
 			if !s.lengthOK(len(p)) {
@@ -273,6 +284,7 @@ func (c *codec) eval(p []byte, fl flags) (o outcome) {
 		stage = stPack
 		p2 := c.d.Pack()
 		c.p2 = p2
+		c.p2copy = append(c.p2copy[:0], p2...)
 		stage = stReUnpack
 		if err := c.d2.Unpack(p2); err != nil {
 			c.err = err
@@ -305,6 +317,12 @@ func (c *codec) eval(p []byte, fl flags) (o outcome) {
 					}
 				}
 			}
+		}
+		// the payload handed out first is the caller's: it still reads as it did, whatever was encoded
+		// since (this datapoint again, the primed one)
+		if !bytes.Equal(p2, c.p2copy) {
+			o |= oPayloadShared
+			p2 = c.p2copy
 		}
 		if c.refKind && o&oDrift == 0 {
 			// a receiver re-uses its buffer for the next telegram: decode from a private copy of the
@@ -347,6 +365,8 @@ func (c *codec) classes(o outcome) []string {
 	add(oAliasPayload, "C06:decoded-value-aliases-payload:%s")
 	add(oReceiverDep, "C06:decode-depends-on-receiver:%s")
 	add(oOtherInstance, "C06:value-changed-by-another-datapoint:%s")
+	add(oInputModified, "C06:decoder-modifies-its-input:%s")
+	add(oPayloadShared, "C06:encoded-payload-changes-afterwards:%s")
 	add(oPanicPack, "C06:panic:Pack:%s")
 	add(oPanicReUnpack, "C06:panic:Unpack-of-reencoded:%s")
 	add(oPanicUnpack, "C08:panic:%s")
@@ -429,6 +449,12 @@ func (c *codec) describe(p []byte, o outcome) string {
 			}
 			if o&oReceiverDep != 0 {
 				fmt.Fprintf(&b, "; decoded into a receiver that held the value of payload % x before, the same payload yields a value that encodes to % x (nil: rejected): the result depends on what the receiver held", c.primer, c.p4)
+			}
+			if o&oInputModified != 0 {
+				fmt.Fprintf(&b, "; Unpack changed the payload it was given: it now reads % x (before: % x)", p, c.pcopy)
+			}
+			if o&oPayloadShared != 0 {
+				fmt.Fprintf(&b, "; the payload returned by the first Pack() read % x; after further Pack() calls (the same datapoint again, another datapoint of the type) the same slice reads % x: encoded payloads share memory", c.p2copy, c.p2)
 			}
 			if o&oOtherInstance != 0 {
 				fmt.Fprintf(&b, "; after another datapoint obtained from dpt.Produce(%q) decoded payload % x, the first datapoint no longer encodes to that: the two share their value", c.name, c.primer)
